@@ -61,4 +61,22 @@ theorem utf8_injective : ∀ (s s' : List Char), utf8 s = utf8 s' → s = s'
     rw [utf8_cons, utf8_cons] at h
     obtain ⟨e1, e2⟩ := utf8Char_prefix_free c c' _ _ h
     rw [e1, utf8_injective t t' e2]
+
+/-! ### lengths the hex and base64 decoders accept -/
+/-- what `hex::decode` accepts has exactly two characters per byte (odd lengths are rejected) -/
+theorem hexDecode_length : ∀ (s : List Char) (b : Bytes), hexDecode s = some b → s.length = 2 * b.length
+  | [], b, h => by simp [hexDecode] at h; subst h; rfl
+  | [_], b, h => by simp [hexDecode] at h
+  | x :: y :: rest, b, h => by
+    simp only [hexDecode] at h
+    split at h
+    · rename_i x' y' r hx hy hr
+      injection h with h; subst h
+      have := hexDecode_length rest r hr
+      simp [this]; omega
+    · cases h
+/-- what `base64::STANDARD.decode` accepts has a length that is a multiple of four -/
+theorem b64Decode_length_mod : ∀ (s : List Char) (b : Bytes), b64Decode s = some b → s.length % 4 = 0 := by
+  intro s
+  induction s using b64Decode.induct <;> intro b h <;> simp_all [b64Decode] <;> omega
 end Kp.Codec
